@@ -1,3 +1,6 @@
-pub mod common;
+pub mod ana;
 pub mod c01;
 pub mod c02;
+pub mod c05;
+pub mod c06;
+pub mod common;
